@@ -14,8 +14,9 @@ RULE = ("corpus of 10 message sets (plain 1 and 3 messages, null/empty/short key
         "them). Patterns: every single bit of every corpus message (exhaustive, both tiers); double flips (all pairs of the 120-bit "
         "message in the thorough tier, sampled otherwise); bursts = start x length<=32 with all-ones, alternating and random fill (first and "
         "last bit set) confined to the covered bytes, confined to the field, and straddling the field/data boundary (exhaustive over start x "
-        "length for the two smallest messages with all-ones fill in the quick tier and with all three fills in the thorough tier; sampled "
-        "for the others); each with validation on, and with validation off for all field-confined patterns plus a sample of the others; "
+        "length x fill for the two smallest messages (120 and 136 bits) in both tiers; sampled for the others); each with validation on, "
+        "and with validation off for every field-confined pattern and for patterns that touch only the field and the key/value bytes of "
+        "an uncompressed message (magic, attributes, length fields or a compressed stream are never altered with validation off); "
         "uncorrupted controls; one crafted straddling burst whose checksum matches (known class C04-straddling-burst). "
         "non-trivial = a case in which at least one corrupted reply was decoded with validation on")
 ASSUMPTIONS = ["'burst of up to 32 bits' is read in CRC bit order (LSB of each byte first), the order in which CRC-32 guarantees detection of "
@@ -26,7 +27,7 @@ EXHAUSTIVE = False
 
 KNOWN = "C04-straddling-burst:"
 TOPIC = b"t"
-OPS_PER_CASE = 20
+OPS_PER_CASE = 40
 
 
 # ---- corpus ------------------------------------------------------------------------------------------------
@@ -241,18 +242,16 @@ def gen(rng, tier):
         if name == "plain-tiny" and not quick:
             chosen = pairs
         else:
-            chosen = rng.sample(pairs, min(len(pairs), (260 if name in small else 90) if quick else 1500))
+            chosen = rng.sample(pairs, min(len(pairs), (700 if name in small else 250) if quick else 1500))
         for (i, j) in chosen:
             both([i, j], "double", 0.5)
         # bursts
         for where in ("data", "field", "straddle"):
             allb = all_bursts(nbits, where)
             if name in small:
-                plan = [(s, l, f) for (s, l) in allb for f in (["ones"] if quick else ["ones", "alt", "rand"])]
-                if quick:
-                    plan += [(s, l, rng.choice(["alt", "rand"])) for (s, l) in rng.sample(allb, min(len(allb), 300))]
+                plan = [(s, l, f) for (s, l) in allb for f in ("ones", "alt", "rand")]
             else:
-                k = (140 if where == "data" else 60) if quick else 2500
+                k = (400 if where == "data" else 150) if quick else 2500
                 plan = [(s, l, rng.choice(["ones", "alt", "rand"])) for (s, l) in rng.sample(allb, min(len(allb), k))]
             for (s, l, f) in plan:
                 both(burst_bits(rng, s, l, f), "burst_" + where, 0.5)
